@@ -165,7 +165,37 @@ Theorem C19_repeated_step_is_ignored :
 Proof. split; [exact runave_repeated_step|exact acf_repeated_step]. Qed.
 Print Assumptions C19_repeated_step_is_ignored.
 
+(* ---- the other output files: which steps write them --------------------------------------------- *)
+(* A run over the steps s0 .. s0+n followed by the end of the run (post_run).  For the variables' output files
+   (correlation functions; governed by the restart frequency) and for the output files of every bias (governed by
+   its outputFreq; bias names distinct): the file is written at most once per step, exactly at the steps of the run
+   after its first one that are multiples of the governing frequency, and at the last step; so the last write - what
+   is left on disk - is made at the last step of the run. *)
+Theorem C19_output_files_final_and_once : forall (c : ocfg) (k : ofile) (f s0 : Z) (n : nat),
+  NoDup (map fst (oc_biases c)) -> governs c k f ->
+  let last := (s0 + Z.of_nat n)%Z in
+  let w := writes_of k (out_run c (map OCalc (run_steps s0 (S n)) ++ [OEnd last])) in
+  NoDup w /\ List.last w 0%Z = last /\
+  forall it, In it w <-> (it = last \/ ((s0 <= it <= last)%Z /\ at_freq c f it = true)).
+Proof. exact output_final_and_once. Qed.
+Print Assumptions C19_output_files_final_and_once.
+
+(* the state file (whose `step` field is the step at which it is written): at the restart-frequency steps and,
+   always, at the end of the run *)
+Theorem C19_state_file_steps : forall (c : ocfg) (s0 : Z) (n : nat),
+  let last := (s0 + Z.of_nat n)%Z in
+  writes_of FState (out_run c (map OCalc (run_steps s0 (S n)) ++ [OEnd last])) =
+  filter (at_freq c (oc_restart_freq c)) (run_steps s0 (S n)) ++ [last].
+Proof. exact state_file_steps. Qed.
+Print Assumptions C19_state_file_steps.
+
 (* ---- the premises are satisfiable; the specification functions compute what they should ---------- *)
+Example C19_ex_out :
+  out_run (mkOC 2 0 [(0, 3)])%Z [OCalc 0; OCalc 1; OCalc 2; OCalc 3; OEnd 3]%Z =
+    [(2, FState); (2, FColvar); (3, FBias 0); (3, FState); (3, FColvar)]%Z.
+Proof. vm_compute. reflexivity. Qed.
+Example C19_ex_governs : governs (mkOC 2 0 [(0, 3)])%Z (FBias 0) 3 /\ NoDup (map fst [(0, 3)]%Z).
+Proof. split; [left; reflexivity|constructor; [intros []|constructor]]. Qed.
 Example C19_ex_run : (0 < t_freq (traj_init 2 (mkCfg [mkVF 0 true true false false true false false] [])))%Z.
 Proof. reflexivity. Qed.
 Example C19_ex_traj :
